@@ -4,20 +4,32 @@
 //                     Matrix22/33::rotate(r)                 == M * setRotation(r)
 //    The set* matrix is the quad matrix written from the documentation (the builder sub-checks tie the library's own
 //    set* output to the same matrix), the product is formed in quad, every slot is compared.
+//
+//    Every in-place member is a template on the element type S of its parameter (Vec3<S>, Vec2<S>, Shear6<S>, S):
+//    inplace_case<T, S> calls Matrix<T>::op (param<S>).  S == T in the inplace_* sub-checks; the inplace_mixed_*
+//    sub-checks use S != T (the other floating type, int, short).  The parameter values enter the oracle exactly
+//    (quad), and the arithmetic conversions make the library compute in the wider of S and T, so the bounds in
+//    units of eps(T) are the same.  Exceptions, stated by the header's own code:
+//      * rotations build their sin/cos entries in S (Matrix44::rotate) or store them in variables of type S
+//        (Matrix22/33::setRotation): the rotation-entry term of the bound uses max(eps(S), eps(T));
+//      * Matrix22/33::setRotation evaluates cos((T) r): an angle of a wider type is first rounded to T, which
+//        moves the rotation entries by up to eps(T) |r|; that term is added for S wider than T;
+//      * integral S is not used for angles (the entries would be truncated to integers by those S variables).
 // ===================================================================================================================
 #pragma once
 
 // M0: matrix before, M2: after the in-place call, E: expected transform, post: M0*E instead of E*M0.
 // bound per slot: eps * (k1 * sum_k |E_ik||M_kj|  +  k2 * sum over the rotation block of |M|)   (k2 = 0 for exact E)
 template <class T, int N, class M>
-static void check_inplace (vp::Ctx& c, const std::string& name, const M& M0, const M& M2, const QM<N>& E, bool post, double k1, double k2)
+static void check_inplace (vp::Ctx& c, const std::string& name, const M& M0, const M& M2, const QM<N>& E, bool post, double k1, double k2, const char* sname = "")
 {
     const int  D   = N == 2 ? 2 : N - 1;
     const quad eps = EPS<T> ();
     QM<N>      Mq  = QM<N>::from (M0);
     QM<N>      X   = post ? Mq * E : E * Mq;
     QM<N>      A   = post ? absmul (Mq, E) : absmul (E, Mq);
-    VP_REQUIRE (c, (all_finite<M, N> (M2)), name + "/nonfinite", TN<T>::n () << " " << name << " produced " << mstr (M2, N));
+    const std::string tns = std::string (TN<T>::n ()) + (sname[0] ? std::string (" (parameter type ") + sname + ")" : std::string ());
+    VP_REQUIRE (c, (all_finite<M, N> (M2)), name + "/nonfinite", tns << " " << name << " produced " << mstr (M2, N));
     for (int i = 0; i < N; ++i)
         for (int j = 0; j < N; ++j)
         {
@@ -28,10 +40,10 @@ static void check_inplace (vp::Ctx& c, const std::string& name, const M& M0, con
             quad tol = eps * ((quad) k1 * A.a[i][j] + (quad) k2 * blk) + (quad) std::numeric_limits<T>::denorm_min ();
             quad d   = qabs ((quad) M2[i][j] - X.a[i][j]);
             if (k2 > 0)
-                C09_MEAS (name + "|" + TN<T>::n () + "|rot/(eps*(A+blk))", d / (eps * (A.a[i][j] + blk) + (quad) 1e-300));
+                C09_MEAS (name + "|" + TN<T>::n () + sname + "|rot/(eps*(A+(k2/k1)*blk))", d / (eps * (A.a[i][j] + (quad) (k2 / k1) * blk) + (quad) 1e-300));
             else
-                C09_MEAS (name + "|" + TN<T>::n () + "|exact/(eps*A)", d / (eps * A.a[i][j] + (quad) 1e-300));
-            VP_REQUIRE (c, d <= tol, name + "/slot", TN<T>::n () << " " << name << " slot [" << i << "][" << j << "] = " << M2[i][j] << " expected " << qstr (X.a[i][j]) << " (" << (post ? "M*set" : "set*M") << ", bound " << qstr (tol) << "); before " << mstr (M0, N) << " after " << mstr (M2, N));
+                C09_MEAS (name + "|" + TN<T>::n () + sname + "|exact/(eps*A)", d / (eps * A.a[i][j] + (quad) 1e-300));
+            VP_REQUIRE (c, d <= tol, name + "/slot", tns << " " << name << " slot [" << i << "][" << j << "] = " << M2[i][j] << " expected " << qstr (X.a[i][j]) << " (" << (post ? "M*set" : "set*M") << ", bound " << qstr (tol) << "); before " << mstr (M0, N) << " after " << mstr (M2, N));
         }
 }
 
@@ -53,9 +65,14 @@ enum
     IL_IDENTITY = I_NOPS,
     IL_AFFINE,
     IL_NONAFFINE,
-    IL_MULTIPERIOD
+    IL_MULTIPERIOD,
+    IL_S_FLOAT_WIDER,
+    IL_S_FLOAT_NARROWER,
+    IL_S_INT,
+    IL_S_SHORT
 };
 #define C09_INPLACE_LABELS "m44_translate", "m44_scale", "m44_shear_vec3", "m44_shear_shear6", "m44_rotate", "m33_translate", "m33_scale", "m33_shear_scalar", "m33_shear_vec2", "m33_rotate", "m22_rotate", "m22_scale", "current_identity", "current_affine", "current_nonaffine", "angle_beyond_one_period"
+#define C09_MIXED_LABELS C09_INPLACE_LABELS, "param_wider_float(double on float matrix)", "param_narrower_float(float on double matrix)", "param_int", "param_short"
 
 static const int INPLACE_OPS[] = { I44_TRANSLATE, I44_TRANSLATE, I44_SCALE, I44_SCALE, I44_SHEAR_VEC3, I44_SHEAR_VEC3, I44_SHEAR_SHEAR6, I44_SHEAR_SHEAR6, I44_ROTATE, I44_ROTATE, I44_ROTATE, I33_TRANSLATE, I33_TRANSLATE, I33_SCALE, I33_SHEAR_SCALAR, I33_SHEAR_VEC2, I33_SHEAR_VEC2, I33_ROTATE, I33_ROTATE, I22_ROTATE, I22_ROTATE, I22_SCALE };
 
@@ -64,12 +81,35 @@ static const int INPLACE_OPS[] = { I44_TRANSLATE, I44_TRANSLATE, I44_SCALE, I44_
 //   scale: one rounded product per slot: k1 = 2                         measured worst 0.50
 //   rotate: the rotation entries carry their own T-precision error (sin/cos, products), which acts on the whole
 //   rotation block of M: error / (eps * (sum|terms| + sum|M block|)) measured worst 0.89 (4x4), 0.56 (3x3, 2x2)
+// Mixed parameter types (inplace_mixed_*, 6e6 cases per matrix type), same units: translate 1.65 (4x4) 1.33 (3x3),
+//   shear 1.42 / 0.98, scale 0.50; rotate with the block term scaled by rot_scale: 1.17 (4x4, float angles on a double
+//   matrix), 0.25 (4x4 double on float), 0.56 (3x3 / 2x2)
 static const double C09_ROT_K1 = 6, C09_ROT_K2 = 6;
 
-template <class T> static void inplace_case (vp::Ctx& c)
+// scale factor for the rotation-entry term of the bound when the parameter type S differs from T (see the top of this file)
+template <class T, class S> static inline double rot_scale (double angle_abs, bool angle_rounded_to_T)
 {
-    vp::Src& s  = c.s;
-    int      op = s.pick (INPLACE_OPS);
+    if constexpr (std::is_integral<S>::value)
+        return 1;
+    else
+    {
+        double es = FInfo<S>::eps (), et = FInfo<T>::eps ();
+        double r  = es > et ? es / et : 1.0;
+        if (angle_rounded_to_T && es < et) r += angle_abs;
+        return r;
+    }
+}
+
+template <class T, class S = T> static void inplace_case (vp::Ctx& c)
+{
+    vp::Src&             s       = c.s;
+    constexpr bool       s_int   = std::is_integral<S>::value;
+    constexpr bool       mixed   = !std::is_same<S, T>::value;
+    const char*          sn      = mixed ? TN<S>::n () : "";
+    const std::string    par     = mixed ? std::string (" <") + TN<S>::n () + "> " : std::string (" ");
+    int                  op      = s.pick (INPLACE_OPS);
+    if (s_int) // no integral angles: the translate / scale forms of the same matrix size instead
+        op = op == I44_ROTATE ? I44_TRANSLATE : op == I33_ROTATE ? I33_TRANSLATE : op == I22_ROTATE ? I22_SCALE : op;
     c.label (op);
     Matrix44<T> m4, b4;
     Matrix33<T> m3, b3;
@@ -96,133 +136,139 @@ template <class T> static void inplace_case (vp::Ctx& c)
     {
         case I44_TRANSLATE:
         {
-            Vec3<T> t = gen_param3<T> (s);
-            VP_NOTE (c, TN<T>::n () << " M44.translate t=" << vstr (t, 3) << " M=" << mstr (b4, 4));
+            Vec3<S> t = gen_param3<S> (s);
+            VP_NOTE (c, TN<T>::n () << par << "M44.translate t=" << vstr (t, 3) << " M=" << mstr (b4, 4));
             const Matrix44<T>& r = m4.translate (t);
             VP_REQUIRE (c, &r == &m4, "m44-translate/returns-this", "does not return *this");
             quad tq[3] = { (quad) t.x, (quad) t.y, (quad) t.z };
-            check_inplace<T, 4> (c, "m44-translate", b4, m4, E_translation<4> (tq), false, 6, 0);
+            check_inplace<T, 4> (c, "m44-translate", b4, m4, E_translation<4> (tq), false, 6, 0, sn);
             break;
         }
         case I44_SCALE:
         {
-            Vec3<T> sc = gen_param3<T> (s);
-            VP_NOTE (c, TN<T>::n () << " M44.scale s=" << vstr (sc, 3) << " M=" << mstr (b4, 4));
+            Vec3<S> sc = gen_param3<S> (s);
+            VP_NOTE (c, TN<T>::n () << par << "M44.scale s=" << vstr (sc, 3) << " M=" << mstr (b4, 4));
             const Matrix44<T>& r = m4.scale (sc);
             VP_REQUIRE (c, &r == &m4, "m44-scale/returns-this", "does not return *this");
             quad sq[3] = { (quad) sc.x, (quad) sc.y, (quad) sc.z };
-            check_inplace<T, 4> (c, "m44-scale", b4, m4, E_scale<4> (sq, 3), false, 2, 0);
+            check_inplace<T, 4> (c, "m44-scale", b4, m4, E_scale<4> (sq, 3), false, 2, 0, sn);
             break;
         }
         case I44_SHEAR_VEC3:
         {
-            Vec3<T> h = gen_param3<T> (s);
-            VP_NOTE (c, TN<T>::n () << " M44.shear(Vec3) h=" << vstr (h, 3) << " M=" << mstr (b4, 4));
+            Vec3<S> h = gen_param3<S> (s);
+            VP_NOTE (c, TN<T>::n () << par << "M44.shear(Vec3) h=" << vstr (h, 3) << " M=" << mstr (b4, 4));
             const Matrix44<T>& r = m4.shear (h);
             VP_REQUIRE (c, &r == &m4, "m44-shear(Vec3)/returns-this", "does not return *this");
-            check_inplace<T, 4> (c, "m44-shear(Vec3)", b4, m4, E_shear44 ((quad) h[0], (quad) h[1], (quad) h[2], 0, 0, 0), false, 6, 0);
+            check_inplace<T, 4> (c, "m44-shear(Vec3)", b4, m4, E_shear44 ((quad) h[0], (quad) h[1], (quad) h[2], 0, 0, 0), false, 6, 0, sn);
             break;
         }
         case I44_SHEAR_SHEAR6:
         {
-            T h[6];
+            S h[6];
             for (int i = 0; i < 6; ++i)
-                h[i] = gen_param<T> (s);
-            Shear6<T> sh (h[0], h[1], h[2], h[3], h[4], h[5]);
-            VP_NOTE (c, TN<T>::n () << " M44.shear(Shear6) xy=" << h[0] << " xz=" << h[1] << " yz=" << h[2] << " yx=" << h[3] << " zx=" << h[4] << " zy=" << h[5] << " M=" << mstr (b4, 4));
+                h[i] = gen_param_any<S> (s);
+            Shear6<S> sh (h[0], h[1], h[2], h[3], h[4], h[5]);
+            VP_NOTE (c, TN<T>::n () << par << "M44.shear(Shear6) xy=" << h[0] << " xz=" << h[1] << " yz=" << h[2] << " yx=" << h[3] << " zx=" << h[4] << " zy=" << h[5] << " M=" << mstr (b4, 4));
             const Matrix44<T>& r = m4.shear (sh);
             VP_REQUIRE (c, &r == &m4, "m44-shear(Shear6)/returns-this", "does not return *this");
-            check_inplace<T, 4> (c, "m44-shear(Shear6)", b4, m4, E_shear44 ((quad) h[0], (quad) h[1], (quad) h[2], (quad) h[3], (quad) h[4], (quad) h[5]), false, 6, 0);
+            check_inplace<T, 4> (c, "m44-shear(Shear6)", b4, m4, E_shear44 ((quad) h[0], (quad) h[1], (quad) h[2], (quad) h[3], (quad) h[4], (quad) h[5]), false, 6, 0, sn);
             break;
         }
         case I44_ROTATE:
+        if constexpr (!s_int)
         {
-            Vec3<T> a = gen_angle3<T> (s);
+            Vec3<S> a = gen_angle3<S> (s);
             if (std::fabs (a.x) > 3.2 || std::fabs (a.y) > 3.2 || std::fabs (a.z) > 3.2)
             {
                 c.label (IL_MULTIPERIOD);
                 c.nt ();
             }
-            VP_NOTE (c, TN<T>::n () << " M44.rotate r=" << vstr (a, 3) << " M=" << mstr (b4, 4));
+            VP_NOTE (c, TN<T>::n () << par << "M44.rotate r=" << vstr (a, 3) << " M=" << mstr (b4, 4));
             const Matrix44<T>& r = m4.rotate (a);
             VP_REQUIRE (c, &r == &m4, "m44-rotate/returns-this", "does not return *this");
-            check_inplace<T, 4> (c, "m44-rotate", b4, m4, E_euler ((quad) a.x, (quad) a.y, (quad) a.z), false, C09_ROT_K1, C09_ROT_K2);
+            check_inplace<T, 4> (c, "m44-rotate", b4, m4, E_euler ((quad) a.x, (quad) a.y, (quad) a.z), false, C09_ROT_K1, C09_ROT_K2 * rot_scale<T, S> (0, false), sn);
             break;
         }
+            break;
         case I33_TRANSLATE:
         {
-            Vec2<T> t = gen_param2<T> (s);
-            VP_NOTE (c, TN<T>::n () << " M33.translate t=" << vstr (t, 2) << " M=" << mstr (b3, 3));
+            Vec2<S> t = gen_param2<S> (s);
+            VP_NOTE (c, TN<T>::n () << par << "M33.translate t=" << vstr (t, 2) << " M=" << mstr (b3, 3));
             const Matrix33<T>& r = m3.translate (t);
             VP_REQUIRE (c, &r == &m3, "m33-translate/returns-this", "does not return *this");
             quad tq[2] = { (quad) t.x, (quad) t.y };
-            check_inplace<T, 3> (c, "m33-translate", b3, m3, E_translation<3> (tq), false, 5, 0);
+            check_inplace<T, 3> (c, "m33-translate", b3, m3, E_translation<3> (tq), false, 5, 0, sn);
             break;
         }
         case I33_SCALE:
         {
-            Vec2<T> sc = gen_param2<T> (s);
-            VP_NOTE (c, TN<T>::n () << " M33.scale s=" << vstr (sc, 2) << " M=" << mstr (b3, 3));
+            Vec2<S> sc = gen_param2<S> (s);
+            VP_NOTE (c, TN<T>::n () << par << "M33.scale s=" << vstr (sc, 2) << " M=" << mstr (b3, 3));
             const Matrix33<T>& r = m3.scale (sc);
             VP_REQUIRE (c, &r == &m3, "m33-scale/returns-this", "does not return *this");
             quad sq[2] = { (quad) sc.x, (quad) sc.y };
-            check_inplace<T, 3> (c, "m33-scale", b3, m3, E_scale<3> (sq, 2), false, 2, 0);
+            check_inplace<T, 3> (c, "m33-scale", b3, m3, E_scale<3> (sq, 2), false, 2, 0, sn);
             break;
         }
         case I33_SHEAR_SCALAR:
         {
-            T xy = gen_param<T> (s);
-            VP_NOTE (c, TN<T>::n () << " M33.shear(scalar) xy=" << xy << " M=" << mstr (b3, 3));
+            S xy = gen_param_any<S> (s);
+            VP_NOTE (c, TN<T>::n () << par << "M33.shear(scalar) xy=" << xy << " M=" << mstr (b3, 3));
             const Matrix33<T>& r = m3.shear (xy);
             VP_REQUIRE (c, &r == &m3, "m33-shear(scalar)/returns-this", "does not return *this");
-            check_inplace<T, 3> (c, "m33-shear(scalar)", b3, m3, E_shear33 ((quad) xy, 0), false, 5, 0);
+            check_inplace<T, 3> (c, "m33-shear(scalar)", b3, m3, E_shear33 ((quad) xy, 0), false, 5, 0, sn);
             break;
         }
         case I33_SHEAR_VEC2:
         {
-            Vec2<T> h = gen_param2<T> (s);
-            VP_NOTE (c, TN<T>::n () << " M33.shear(Vec2) h=" << vstr (h, 2) << " M=" << mstr (b3, 3));
+            Vec2<S> h = gen_param2<S> (s);
+            VP_NOTE (c, TN<T>::n () << par << "M33.shear(Vec2) h=" << vstr (h, 2) << " M=" << mstr (b3, 3));
             const Matrix33<T>& r = m3.shear (h);
             VP_REQUIRE (c, &r == &m3, "m33-shear(Vec2)/returns-this", "does not return *this");
-            check_inplace<T, 3> (c, "m33-shear(Vec2)", b3, m3, E_shear33 ((quad) h.x, (quad) h.y), false, 5, 0);
+            check_inplace<T, 3> (c, "m33-shear(Vec2)", b3, m3, E_shear33 ((quad) h.x, (quad) h.y), false, 5, 0, sn);
             break;
         }
         case I33_ROTATE:
+        if constexpr (!s_int)
         {
-            T ang = gen_angle<T> (s);
+            S ang = gen_angle<S> (s);
             if (std::fabs (ang) > 3.2)
             {
                 c.label (IL_MULTIPERIOD);
                 c.nt ();
             }
-            VP_NOTE (c, TN<T>::n () << " M33.rotate r=" << ang << " M=" << mstr (b3, 3));
+            VP_NOTE (c, TN<T>::n () << par << "M33.rotate r=" << ang << " M=" << mstr (b3, 3));
             const Matrix33<T>& r = m3.rotate (ang);
             VP_REQUIRE (c, &r == &m3, "m33-rotate/returns-this", "does not return *this");
-            check_inplace<T, 3> (c, "m33-rotate", b3, m3, E_rot33 ((quad) ang), true, 4, 4);
+            check_inplace<T, 3> (c, "m33-rotate", b3, m3, E_rot33 ((quad) ang), true, 4, 4 * rot_scale<T, S> (std::fabs ((double) ang), true), sn);
             break;
         }
+            break;
         case I22_ROTATE:
+        if constexpr (!s_int)
         {
-            T ang = gen_angle<T> (s);
+            S ang = gen_angle<S> (s);
             if (std::fabs (ang) > 3.2)
             {
                 c.label (IL_MULTIPERIOD);
                 c.nt ();
             }
-            VP_NOTE (c, TN<T>::n () << " M22.rotate r=" << ang << " M=" << mstr (b2, 2));
+            VP_NOTE (c, TN<T>::n () << par << "M22.rotate r=" << ang << " M=" << mstr (b2, 2));
             const Matrix22<T>& r = m2.rotate (ang);
             VP_REQUIRE (c, &r == &m2, "m22-rotate/returns-this", "does not return *this");
-            check_inplace<T, 2> (c, "m22-rotate", b2, m2, E_rot22 ((quad) ang), true, 4, 4);
+            check_inplace<T, 2> (c, "m22-rotate", b2, m2, E_rot22 ((quad) ang), true, 4, 4 * rot_scale<T, S> (std::fabs ((double) ang), true), sn);
             break;
         }
+            break;
         default:
         {
-            Vec2<T> sc = gen_param2<T> (s);
-            VP_NOTE (c, TN<T>::n () << " M22.scale s=" << vstr (sc, 2) << " M=" << mstr (b2, 2));
+            Vec2<S> sc = gen_param2<S> (s);
+            VP_NOTE (c, TN<T>::n () << par << "M22.scale s=" << vstr (sc, 2) << " M=" << mstr (b2, 2));
             const Matrix22<T>& r = m2.scale (sc);
             VP_REQUIRE (c, &r == &m2, "m22-scale/returns-this", "does not return *this");
             quad sq[2] = { (quad) sc.x, (quad) sc.y };
-            check_inplace<T, 2> (c, "m22-scale", b2, m2, E_scale<2> (sq, 2), false, 2, 0);
+            check_inplace<T, 2> (c, "m22-scale", b2, m2, E_scale<2> (sq, 2), false, 2, 0, sn);
             break;
         }
     }
@@ -236,3 +282,42 @@ VP_REQUIRE_LABELS (inplace_f, C09_INPLACE_LABELS)
 VP_RANDOM (inplace_d, 600000, 10000000, C09_INPLACE_RULE) { inplace_case<double> (c); }
 VP_LABELS (inplace_d, C09_INPLACE_LABELS)
 VP_REQUIRE_LABELS (inplace_d, C09_INPLACE_LABELS)
+
+// ---- the same operations with a parameter element type S different from the matrix element type T
+template <class T> struct OtherFloat;
+template <> struct OtherFloat<float>
+{
+    typedef double type;
+};
+template <> struct OtherFloat<double>
+{
+    typedef float type;
+};
+template <class T> static void inplace_mixed_case (vp::Ctx& c)
+{
+    typedef typename OtherFloat<T>::type O;
+    int                                  sk = (int) c.s.below (4);
+    switch (sk)
+    {
+        case 1:
+            c.label (IL_S_INT);
+            inplace_case<T, int> (c);
+            break;
+        case 2:
+            c.label (IL_S_SHORT);
+            inplace_case<T, short> (c);
+            break;
+        default:
+            c.label (sizeof (O) > sizeof (T) ? IL_S_FLOAT_WIDER : IL_S_FLOAT_NARROWER);
+            inplace_case<T, O> (c);
+            break;
+    }
+}
+#define C09_MIXED_RULE                                                                                                 \
+    "the 12 in-place operations called with a parameter whose element type S differs from the matrix's T: the other floating type (1/2), int (1/4), short (1/4; integers: values -100..100, no angles); current matrix and parameter classes as in inplace_*; oracle = quad product with the parameter values taken exactly; bounds in eps(T), rotation entries in max(eps(S),eps(T)) (+ eps(T)|r| where the header rounds the angle to T); non-trivial = current matrix non-affine or an angle beyond one period"
+VP_RANDOM (inplace_mixed_f, 400000, 6000000, C09_MIXED_RULE) { inplace_mixed_case<float> (c); }
+VP_LABELS (inplace_mixed_f, C09_MIXED_LABELS)
+VP_REQUIRE_LABELS (inplace_mixed_f, C09_INPLACE_LABELS, "param_wider_float(double on float matrix)", "param_int", "param_short")
+VP_RANDOM (inplace_mixed_d, 400000, 6000000, C09_MIXED_RULE) { inplace_mixed_case<double> (c); }
+VP_LABELS (inplace_mixed_d, C09_MIXED_LABELS)
+VP_REQUIRE_LABELS (inplace_mixed_d, C09_INPLACE_LABELS, "param_narrower_float(float on double matrix)", "param_int", "param_short")
